@@ -48,7 +48,7 @@ def _is_multi_test(e: ast.AST) -> bool:
     return False
 
 
-@rule("FUSE-GUARD-1", props=["C02"], floor=5)
+@rule("FUSE-GUARD-1", props=["C02", "C10"], floor=5)
 def fuse_guard_1(ctx: Ctx) -> None:
     """default optimiser: every truthy return of can_fuse_predecessors passes the guards
     "predecessor array is requested → no" and "predecessor op has several outputs → no";
@@ -102,6 +102,9 @@ def fuse_guard_1(ctx: Ctx) -> None:
                 ok,
                 f"truthy return `{unparse(r.stmt.value, 40)}` must pass the guard {what}" + ("" if ok else " — a path reaches it without that guard"),
                 sel=f"guard:{label}:{unparse(r.stmt.value, 30)}",
+                # a requested array that is fused away is not materialised: computing it together
+                # with its consumer gives a different answer than computing it alone (C10)
+                props=["C02", "C10"] if label == "requested" else ["C02"],
             )
     # the flag
     poa = repo.get(POA)
@@ -127,8 +130,8 @@ def fuse_guard_1(ctx: Ctx) -> None:
                     # degree of the *array* node between the two ops
                     arg = nm[1].args[-1] if nm[1].args else None
                     single = isinstance(arg, ast.Name) and isinstance(y.value.elts[1], ast.Name) and arg.id == y.value.elts[1].id
-        ctx.ob(poa, y, bool(is_and and has_prim), "the fuse flag implies `predecessor is a primitive op`" + ("" if is_and else " — the flag is not a conjunction"), sel="flag:primitive")
-        ctx.ob(poa, y, bool(is_and and single), "the fuse flag implies `the intermediate array has exactly one consumer` (an array with a second consumer is never removed)", sel="flag:single-consumer")
+        ctx.ob(poa, y, bool(is_and and has_prim), "the fuse flag implies `predecessor is a primitive op`" + ("" if is_and else " — the flag is not a conjunction"), sel="flag:primitive", props=["C02"])
+        ctx.ob(poa, y, bool(is_and and single), "the fuse flag implies `the intermediate array has exactly one consumer` (an array with a second consumer is never removed)", sel="flag:single-consumer", props=["C02"])
     # consumers of the flag select None for unflagged predecessors
     for q in (CFP, FP_):
         d = repo.get(q)
@@ -139,7 +142,7 @@ def fuse_guard_1(ctx: Ctx) -> None:
             flagvar = tgt.elts[2].id if isinstance(tgt, ast.Tuple) and len(tgt.elts) == 3 and isinstance(tgt.elts[2], ast.Name) else None
             e = c.elt
             ok = ok and isinstance(e, ast.IfExp) and isinstance(e.test, ast.Name) and e.test.id == flagvar and isinstance(e.orelse, ast.Constant) and e.orelse.value is None and not c.generators[0].ifs
-        ctx.ob(d, comps[0] if comps else d.node, ok, f"{d.name}: unflagged predecessors are passed as None (not fused), in operand order", sel="flag:none-for-unflagged")
+        ctx.ob(d, comps[0] if comps else d.node, ok, f"{d.name}: unflagged predecessors are passed as None (not fused), in operand order", sel="flag:none-for-unflagged", props=["C02"])
 
 
 @rule("FUSE-GUARD-2", props=["C02"], floor=4)
